@@ -150,6 +150,21 @@ def r2_counts(ctx):
     ok = text == 'SE*12*0007'
     yield Ob('x12file:X12Writer._get_trailer_segment template prints id, count, control number', ok, ctx.floc(f, tmpl),
              '' if ok else 'template yields %r for (SE, 12, 0007)' % text)
+    # the separator inside the template must be the writer's own: evaluate again with another separator
+    try:
+        env = {params[0]: 'GE', params[1]: 3, params[2]: '17', 'self.ele_term': '|', 'ele_term': '|'}
+        for s in f.body:
+            if isinstance(s, ast.Assign) and isinstance(s.targets[0], ast.Name) and s is not tmpl:
+                try:
+                    env[s.targets[0].id] = A.ev(s.value, env)
+                except A.NotClosed:
+                    pass
+        text2 = A.ev(tmpl.value, env)
+    except A.NotClosed as e:
+        raise AnalysisError('_get_trailer_segment: template not closed: %s' % e)
+    ok = text2 == 'GE|3|17'
+    yield Ob('x12file:X12Writer._get_trailer_segment template uses the writer\'s element separator', ok, ctx.floc(f, tmpl),
+             '' if ok else 'with element separator | the template yields %r: the trailer is then parsed with another separator than it was built with' % text2)
     segc = [c for c in A.calls_in(f) if A.call_target(c)[1] == 'Segment']
     ok = len(segc) == 1 and [path_of(a) for a in segc[0].args[1:4]] == ['self.seg_term', 'self.ele_term', 'self.subele_term']
     yield Ob('x12file:X12Writer._get_trailer_segment parses the template with the writer delimiters', ok, ctx.floc(f),
